@@ -13,6 +13,9 @@ CHECKS = {
  'C05': dict(tech='TLA+ exhaustive constraint solver (ConstraintSat.tla) on constraint rows exported from the real compiler over F_47, relation from ApiSemantics.tla; Go twin enumerator validated against TLC by exact state counts',
              text='Every single API operation x operand-kind pattern x builder is compiled by the real builders over F_47, its rows exported with concrete coefficients, and every satisfying assignment of every wire (every dishonest hint output) is enumerated for all operand values; each must satisfy the documented relation. TLC enumerates a seeded subset itself and must explore exactly the number of partial assignments the Go enumerator reports.',
              note='Exhaustive over F_47 only; TLC is ~10^3x slower than the Go twin, so TLC covers a state-bounded subset per run (all cases in the thorough tier budget) and validates the twin by state counts and a removed-row self-test.', ref='6 C05'),
+ 'C06': dict(tech='TLA+ level-assignment and schedule specs (LevelBuilder.tla, SolverTrace.tla, SolverSplit.tla) in TLC; recorded levels, solutions and hook traces of real solves validated; every solution re-evaluated on independently exported rows',
+             text='The level assignment is transcribed and model-checked; for TLC-generated programs over F_47 (every assignment) and corpus circuits with hints, lookups and commitments on several curves, the solution the real solver hands to the backend (captured at a build-tag hook) is re-evaluated on the exported rows, instruction reads/writes/levels observed through the blueprints are checked for soundness, and scheduling traces (level, instruction, wire-set events) are validated by TLC.',
+             note='Failure direction (fails only when a constraint is violated) is judged through ApiSemantics on generated programs; interleavings are those the Go runtime produces plus the task-split boundary sweep of C10.', ref='6 C06'),
  'C08': dict(tech='TLA+ step-machine model of both verifiers over input shapes (VerifierRobust.tla) + framing alphabet (Framing.tla), exhaustive in TLC; every shape and mutation replayed on real decoders/verifiers',
              text='TLC explores every combination of variable-length-part lengths (0..4 / 0..10) against the key on the transcribed step lists (no out-of-range access, inconsistent shapes end in an error) and enumerates every framing mutation of the encodings; all are applied to real proofs/witnesses (direct, compressed and raw encodings) and the real decode/verify outcome must be error or acceptance, never a panic or crash.',
              note='Content-level corruption inside a point encoding is sampled by bit flips; arbitrary byte strings are covered structurally, not by coverage-guided fuzzing. Allocation-bomb prefixes run under ulimit -v 8GB.', ref='6 C08'),
